@@ -630,7 +630,7 @@ func c03R8(r *Report) {
 			continue
 		}
 		allInstrs(f, func(in ssa.Instruction) {
-			if !isStdCall(in, "sync/atomic", "", "AddInt64") {
+			if !isAtomicAdd(in) {
 				return
 			}
 			d := stripIntConv(in.(*ssa.Call).Call.Args[1])
@@ -648,7 +648,7 @@ func c03R8(r *Report) {
 				return
 			}
 			var v ssa.Value
-			if isStdCall(in, "sync/atomic", "", "AddInt64") {
+			if isAtomicAdd(in) {
 				v = c.Call.Args[1]
 			} else if k, isW := wrapper[c.Call.StaticCallee()]; isW && c.Call.StaticCallee() != nil && k < len(c.Call.Args) {
 				v = c.Call.Args[k]
@@ -717,11 +717,11 @@ func c03R9(r *Report) {
 			if !ok {
 				return false
 			}
-			if isStdCall(in, "sync/atomic", "", "AddInt64") {
+			if isAtomicAdd(in) {
 				return true
 			}
 			h := c.Call.StaticCallee()
-			return h != nil && h.Blocks != nil && relPkg(h) == "alloc" && h != al && anyInstr(h, func(i ssa.Instruction) bool { return isStdCall(i, "sync/atomic", "", "AddInt64") }) != nil
+			return h != nil && h.Blocks != nil && relPkg(h) == "alloc" && h != al && anyInstr(h, func(i ssa.Instruction) bool { return isAtomicAdd(i) }) != nil
 		}
 		allInstrs(al, func(in ssa.Instruction) {
 			if !isAdjust(in) {
@@ -1139,4 +1139,9 @@ func rangeExhaustive(r *Report, rule string, sel func(caller *ssa.Function) bool
 		r.Check(bad == nil, rule, fmt.Sprintf("%s/walk-is-exhaustive", fname(caller)), pos, "the callback answers true on every path (or false only after recording what it searched for)", msg)
 	}
 	r.Sentinel(rule+".walks", n, min)
+}
+
+// isAtomicAdd: atomic.AddInt64(&x, d), or x.Add(d) on an atomic.Int64 (the delta is the second argument either way).
+func isAtomicAdd(in ssa.Instruction) bool {
+	return isStdCall(in, "sync/atomic", "", "AddInt64") || isStdCall(in, "sync/atomic", "Int64", "Add")
 }
